@@ -19,6 +19,9 @@ Kernel lines (stateless; first token `k`):
 Bitmap lines (registers are arbitrary tokens; state is reset by `case`):
   new <r> <s|t> <items>      NewBitmap / NewBTreeBitmap(values...) -> c=<Count()>
   mk <r> <s|t> <key>=<C|nil>;...   Containers.Put for every entry   -> c=<Count()>
+  addv <r> <items>           Add(v) for every value in the LISTED order (items need not ascend)  -> c=<Count()>
+  rm <r> <items>             Remove(v) for every listed value (a container left empty becomes nil
+                             in a slice collection and is deleted from a B-tree)                 -> c=<Count()>
   opt <r>                    Optimize                              -> c=<Count()>
   rt <dst> <r> <s|t>         dst := decode(encode(NewBitmap(r.Slice()...)))  -> c=<Count()>
   has <r> <v> | count <r> | cr <r> <s> <e> | min <r> | max <r> | slice <r> | sr <r> <s> <e>
@@ -151,6 +154,26 @@ def kernel (ws : List String) : Ans :=
     | none => bad
   | _ => bad
 
+/-- `Container.remove` at value level (write path of C02; used here only to shape collections). -/
+def removeC (c : Container) (v : Nat) : Option Container :=
+  match c with
+  | .array xs => if xs.length = 1 then none else some (.array (xs.filter (· ≠ v)))
+  | .bitmap n bits =>
+    if n = 1 then none
+    else if n - 1 = arrayMaxSize then some (bitmapToArray (n - 1) (bits.filter (· ≠ v)))
+    else some (.bitmap (n - 1) (bits.filter (· ≠ v)))
+  | .run n ivs => if n = 1 then none else some (.run (n - 1) (arrayToRunIvs ((runValues ivs).filter (· ≠ v))))
+
+/-- `Bitmap.remove(v)`: nothing happens when the value is absent. -/
+def removeV (b : Bitmap) (v : Nat) : Bitmap :=
+  match b.get (highbits v) with
+  | none => b
+  | some c => if c.contains (lowbits v) then b.put (highbits v) (removeC c (lowbits v)) else b
+
+/-- `Bitmap.DirectAdd(v)`. -/
+def addV (b : Bitmap) (v : Nat) : Bitmap :=
+  b.put (highbits v) (some (add (b.get (highbits v)) (lowbits v)))
+
 def kindOf (s : String) : Option Bool :=
   if s = "s" then some false else if s = "t" then some true else none
 
@@ -171,6 +194,22 @@ def step (st : St) (ws : List String) : St × Ans :=
       let m := es.foldl (fun (b : Bitmap) e => b.put e.1 e.2) ⟨bt, []⟩
       let sv := m.values
       (st.set r m sv, ans2 s!"c={m.count}" s!"c={sv.length}" "mk")
+    | _, _ => bad
+  | ["addv", r, items] =>
+    match st.get r, parseItems items with
+    | some x, some ps =>
+      let vs := expand ps
+      let m := vs.foldl addV x.model
+      let sv := vs.foldl (fun acc v => insertSorted v acc) x.spec
+      (st.set r m sv, ans2 s!"c={m.count}" s!"c={sv.length}" "add")
+    | _, _ => bad
+  | ["rm", r, items] =>
+    match st.get r, parseItems items with
+    | some x, some ps =>
+      let vs := expand ps
+      let m := vs.foldl removeV x.model
+      let sv := x.spec.filter (fun y => !vs.contains y)
+      (st.set r m sv, ans2 s!"c={m.count}" s!"c={sv.length}" "remove")
     | _, _ => bad
   | ["opt", r] =>
     match st.get r with
